@@ -46,8 +46,11 @@ type Interp struct {
 	LastPhi  map[string]Val
 	// InlinePrefix limits inlining to functions of the module under analysis.
 	InlinePrefix string
-	MaxDepth     int
-	MaxSteps     int
+	// NarrowOK, when set, is asked whether a narrowing conversion of the symbolic integer sym to a type with
+	// the given maximum keeps its value on the current path (a bound the driver has established by other means).
+	NarrowOK func(in *Interp, sym string, max int64) bool
+	MaxDepth int
+	MaxSteps int
 
 	depth int
 	steps int
@@ -424,7 +427,7 @@ func (in *Interp) block(fr *frame, b *ssa.BasicBlock) (next *ssa.BasicBlock, ret
 				if bt, ok := i.Type().Underlying().(*types.Basic); ok {
 					if st, ok := i.X.Type().Underlying().(*types.Basic); ok && st.Info()&types.IsInteger != 0 {
 						max := map[types.BasicKind]int64{types.Uint8: 0xff, types.Uint16: 0xffff}[bt.Kind()]
-						if max != 0 && sizeOf(st.Kind()) > sizeOf(bt.Kind()) && !in.Assume[fmt.Sprintf("(%s<=%d)", iv, max)] {
+						if max != 0 && sizeOf(st.Kind()) > sizeOf(bt.Kind()) && !in.Assume[fmt.Sprintf("(%s<=%d)", iv, max)] && !(in.NarrowOK != nil && in.NarrowOK(in, iv.String(), max)) {
 							x = IntV{Sym: fmt.Sprintf("%s(%s)", bt.Name(), iv)}
 						}
 					}
